@@ -768,6 +768,18 @@ impl TB {
         self.push(t, K::SnapDowngrade, a, 0, 0);
         self.add_wsnap(t, f, name);
     }
+    pub fn wcas_weak(&mut self, t: usize, c: WC, exp: Option<&str>, des: Option<&str>, expect_ok: bool, prev_name: &str, cur_name: &str) {
+        self.wcas(t, c, exp, des, expect_ok, prev_name, cur_name);
+        if let Some(op) = self.threads[t].last_mut() {
+            op.k = K::WCasWeak;
+        }
+    }
+    pub fn cas_weak(&mut self, t: usize, c: C, exp: Option<&str>, des: Option<&str>, expect_ok: bool, prev_name: &str, cur_name: &str) {
+        self.cas(t, c, exp, des, expect_ok, prev_name, cur_name);
+        if let Some(op) = self.threads[t].last_mut() {
+            op.k = K::CasWeak;
+        }
+    }
     pub fn wcas(&mut self, t: usize, c: WC, exp: Option<&str>, des: Option<&str>, expect_ok: bool, prev_name: &str, cur_name: &str) {
         let a = self.wcell(t, &c);
         let b = match exp {
